@@ -1,40 +1,72 @@
 """C25 - DNS wire codec: decoding is total (struct.error or a message), terminates, and agrees with the encoder's layout.
 
-Decided (structural clauses, nothing executed):
-  R25.1 termination of name decompression: on every path of ``unpack_from_with_compression`` the sentinel ``cache[offset] = None`` is
-        stored before the recursive call and before ``offset`` is advanced, a cache hit on the sentinel raises, and every iteration
-        of the label loops advances by at least one byte (``_unpack_label_into`` returns ``_LABEL_SIZE.size [+ size]``).
-  R25.2 header layout agreement between ``DNSMessage.packed`` and ``DNSMessage.unpack_from``: for each of the 8 flag fields the
-        (shift, width, polarity) agree, the fields tile the 16 bits exactly, range checks precede packing; the six header words, the
-        question words and the resource-record words are packed and unpacked in the same order with the same ``struct`` constants
-        (``!HHHHHH``, ``!HH``, ``!HHIH``); sections are written and read in the same order.
+The codec functions are *interpreted from their ASTs* (pyint; nothing imported or executed) and compared with an independent
+reference implementation of the RFC 1035 wire format (_helpers_dnsref), so the rules see behaviour, not spelling: renamed locals,
+inverted branches, extracted helpers, ``match`` for ``if``, added logging / assertions / annotations are evaluated like the original.
+
+Decided:
+  R25.1 bounded model check of ``domain_names.unpack_from_with_compression``: on every byte string over {00,01,02,03,c0} up to length 4
+        (thorough: length 5) at every offset, plus hand-written pointer chains / cycles / boundary label types, the interpreted
+        function (a) terminates and never has more live activations than the buffer has offsets + 1 (an offset that is being
+        unpacked is never unpacked again: the in-progress marker is stored under the offset the call started at before recursing),
+        (b) raises struct.error - and nothing else - for every name the reference decoder classifies as a pointer loop or as
+        malformed, (c) returns the wire length the reference decoder assigns (>= 1 octet) for every name it decodes; thorough:
+        the name cache is transparent (same answers with the cache filled by earlier offsets).
+  R25.2 layout agreement of ``DNSMessage.packed`` and ``DNSMessage.unpack_from``, both interpreted: for every header variant
+        (each flag bit alone, all, none, id corners) and for messages with distinct counts / types / classes / 32-bit TTLs in
+        every section, the reference decoder reads ``packed``'s bytes as the same message, ``unpack_from`` reads the reference
+        encoding (plain and with compressed owner names) as the same message with the right length, and ``packed`` refuses header
+        fields that do not fit their bits.
   R25.3 (E5) every exception that can leave ``DNSLayer.unpack_message`` / ``DNSMessage.unpack`` on untrusted bytes (explicit raises +
-        modelled implicit raisers: struct, index, idna decode/encode, recursion depth) is handled by the handler around the call
-        in ``DNSLayer.state_query`` (today: struct.error only).
+        modelled implicit raisers: struct, index, idna decode/encode, recursion depth, assert) is handled by the handler around the
+        call in ``DNSLayer.state_query`` (today: struct.error only).  Log calls raise nothing.  Index arithmetic is discharged by linear
+        reasoning over guards and single-assignment temporaries + the callers' length checks; an ``assert`` on untrusted data is
+        discharged only if it was evaluated (>= 5 times) and never failed in a bounded model of ``DNSMessage.unpack`` (interpreted on
+        well-formed messages, truncations, boundary-value byte mutations) - an invariant, not an input check; concrete escapes
+        found by that model are reported too.
   R25.4 (known-bits abstract interpretation of the encoder) every bit-field composition evaluated by ``DNSMessage.packed`` and the
-        functions it reaches (nested helpers, ``domain_names.*``, methods) - ``a | b``, ``acc |= b``, and ``K + b`` with a
-        constant K whose low byte is zero used as a struct field - is lossless: the masks of the bits each operand can set are
-        pairwise disjoint.  A mask comes from a constant, from a range check / comparison guard dominating the use, from
-        everything assigned to a local, passed for a parameter by the encoder's call sites, or stored into a local
-        container the value is loaded from.  An operand that is a plain value (attribute, ``len(..)``, parameter, container
-        element) with no bound anywhere on that chain is a violation: a large value spills into the neighbouring bits and
-        ``struct`` does not complain, so the bytes decode to a different message or not at all (e.g. a compression pointer
+        functions it reaches (nested helpers, ``domain_names.*``, methods, methods of the records it iterates) - ``a | b``,
+        ``acc |= b``, and ``K + b`` with a constant K whose low byte is zero used as a struct field - is lossless: the masks of
+        the bits each operand can set are pairwise disjoint.  A mask comes from a constant, from a range check / comparison guard
+        dominating the use, from everything assigned to a local, passed for a parameter by the encoder's call sites, or stored
+        into a local container the value is loaded from.  An operand that is a plain value (attribute, ``len(..)``, parameter,
+        container element) with no bound anywhere on that chain is a violation: a large value spills into the neighbouring bits
+        and ``struct`` does not complain, so the bytes decode to a different message or not at all (e.g. a compression pointer
         ``0xC000 | offset`` for a name first written at offset >= 0x4000; a flag field without its range check).
         Expression kinds the evaluator does not model -> ANALYSIS-ERROR.  Values are assumed non-negative.
-NOT decided: value-level round-trip equality (encode . decode = id) over all messages - in particular whether an emitted
-compression pointer refers to the offset where that very name was written, and truncation made explicit (``offset & 0x3FFF``).
+NOT decided: value-level round-trip equality (encode . decode = id) over *all* messages (R25.2 samples it) - in particular whether an
+emitted compression pointer refers to the offset where that very name was written, and truncation made explicit (``offset & 0x3FFF``).
 """
 
 from __future__ import annotations
 
 import ast
+import itertools
+import struct
 
 from ..core import AnalysisError
 from ..core import norm
+from ..model import attr_chain
+from ..model import enclosing_func
 from ..model import walk_in_order
-from ..paths import GenericSpec
-from ..paths import traces_of
 from ..selftest import Mutant
+from ._helpers_dnsref import diff
+from ._helpers_dnsref import DnsInterp
+from ._helpers_dnsref import FLAG_FIELDS
+from ._helpers_dnsref import layer_self
+from ._helpers_dnsref import layer_unpack
+from ._helpers_dnsref import packed
+from ._helpers_dnsref import public
+from ._helpers_dnsref import ref_decode
+from ._helpers_dnsref import ref_encode
+from ._helpers_dnsref import ref_name
+from ._helpers_dnsref import roomy
+from ._helpers_dnsref import RefError
+from ._helpers_dnsref import require_fields
+from ._helpers_dnsref import STRUCT_ERROR
+from ._helpers_dnsref import unpack
+from ._helpers_dnsref import unpack_from
+from ._helpers_H import _writes
 from ._helpers_H import Config
 from ._helpers_H import guards_at
 from ._helpers_H import MayRaise
@@ -43,18 +75,233 @@ from ._helpers_H import modules_mentioning
 PROP = "C25"
 REG = {
     "strength": "partial",
-    "technique": "known-bits abstract interpretation of the encoder's `|` compositions + exception-escape sets vs. handler coverage (E5) + must-precede path facts (sentinel) + sibling layout tables (pack vs unpack)",
-    "claim": "bit-field compositions in the encoder reachable from DNSMessage.packed have provably disjoint operand bit masks (range-checked "
-    "fields, bounded offsets); every explicit raise and modelled implicit raiser reachable from DNSMessage.unpack on untrusted bytes is handled by DNSLayer.state_query; "
-    "pointer loops hit a sentinel that is stored before recursing and recursion depth is bounded; the header bit layout, word order and struct "
-    "formats of packed and unpack_from agree.",
+    "technique": "AST interpretation (pyint) of the codec against an independent RFC 1035 reference: bounded model check of name decompression "
+    "(termination, loop detection, progress) and encoder/decoder layout agreement on finite message families; known-bits abstract interpretation of "
+    "the encoder's `|` compositions; exception-escape sets vs. handler coverage (E5)",
+    "claim": "on every small byte string the interpreted name decoder terminates, re-enters no offset that is being unpacked, raises struct.error for loops / "
+    "malformed names and consumes exactly the wire length; packed and unpack_from agree with the RFC 1035 header bit layout, word order and record layout on the "
+    "sampled messages and refuse out-of-range header fields; bit-field compositions in the encoder have provably disjoint operand bit masks; every explicit raise and "
+    "modelled implicit raiser reachable from DNSMessage.unpack on untrusted bytes is handled by DNSLayer.state_query.",
     "note": "Index arithmetic is discharged only by the named guard facts printed in the evidence (caller checks len(buffer) >= end_data, callee loops "
-    "while data_offset < end_data - offset); offsets are assumed non-negative.",
+    "while index < end_data - offset); offsets are assumed non-negative. Asserts on untrusted data are discharged only when they never fail in the bounded model "
+    "of DNSMessage.unpack. struct / idna are trusted library behaviour.",
 }
 
 DNS = "mitmproxy/dns.py"
 DN = "mitmproxy/net/dns/domain_names.py"
 LAYER = "mitmproxy/proxy/layers/dns.py"
+
+NAME_FN = "unpack_from_with_compression"
+
+
+# ---------------------------------------------------------------------------------------------------
+# R25.1  bounded model check of the name decoder (interpreted from its AST)
+
+
+def _name_family(tier):
+    """[(buffer, note)]: every byte string over a small alphabet up to a small length (length bytes 0..2/3, the pointer
+    indicator 0xC0 whose second octet - the same small bytes - addresses every offset of the buffer) plus hand-written longer
+    shapes: cycles of every small period, cycles entered through labels, long forward chains, boundary label types."""
+    out = []
+    sigma = (0x00, 0x01, 0x02, 0x03, 0xC0)
+    for n in range(1, 6 if tier == "thorough" else 5):
+        out += [(bytes(t), "exhaustive") for t in itertools.product(sigma, repeat=n)]
+    ptr = lambda o: bytes([0xC0, o])  # noqa: E731
+    chain = b"".join(ptr(2 * i + 2) for i in range(10))  # 10 forward pointers
+    extra = [
+        (ptr(2) + ptr(4) + ptr(0), "cycle of three pointers"),
+        (b"\x01a" + ptr(4) + ptr(2), "label, then a cycle of two pointers"),
+        (b"\x01a\x01b" + ptr(2), "pointer back into the labels of the name being decoded"),
+        (b"\x03www" + ptr(0), "labels + pointer to their own start"),
+        (chain + b"\x00", "chain of ten pointers ending at the root"),
+        (chain + ptr(6), "chain of ten pointers ending in a cycle"),
+        (chain + b"\x02ab" + ptr(0), "chain of ten pointers, a label, back to the start"),
+        (b"\x07example\x03com\x00" + b"\x03www" + ptr(0) + b"\x04mail" + ptr(13), "ordinary compressed names"),
+        (b"\x40" + b"a" * 64 + b"\x00", "label type 0x40"),
+        (b"\xbf" + b"a" * 8, "label type 0xbf"),
+        (b"\x3f" + b"a" * 63 + b"\x00", "longest label"),
+        (b"\x3f" + b"a" * 62, "longest label, truncated"),
+        (b"\xc1\x00\x00", "pointer beyond the buffer"),
+        (b"\x00\xc0", "pointer without its second octet"),
+        (b"\x05ab", "label running past the buffer"),
+        (b"\x01\xff\x00", "label that is not IDNA"),
+        (b"\x02\xc3\x28\x00", "label that is not IDNA"),
+        (b"\x04xn--\x00", "label that is not IDNA"),
+    ]
+    return out + extra
+
+
+def _sig(o):
+    """what a caller can observe of a name-decoder outcome: the exception type or the (name, length) pair"""
+    return (o[0], o[1] if o[0] != "diverge" else None)
+
+
+def _r25_1(ctx):
+    fn = ctx.func(DN, NAME_FN)
+    a = fn.args
+    ctx.require(len(a.posonlyargs + a.args) >= 3, f"{NAME_FN} is no longer called as (buffer, offset, name cache, ...)")
+    it = DnsInterp(ctx.model, max_steps=20000, max_depth=40)
+    key = (DN, fn.name)
+    where = (DN, fn.name, fn)
+    thorough = ctx.tier == "thorough"
+    bad_term = bad_exc = bad_len = None
+    runs = loops = decoded = 0
+    deepest = 0
+    for buf, note in _name_family(ctx.tier):
+        shared: dict = {}
+        for off in range(len(buf)):
+            try:
+                ref = ("ok", ref_name(buf, off)[1])
+            except RefError as e:
+                ref = (e.kind, None)
+            it.reset_counters()
+            o = it.run(DN, fn.name, buf, off, {})
+            runs += 1
+            nest = it.max_nesting.get(key, 0)
+            deepest = max(deepest, nest)
+            show = f"buffer {buf.hex(' ')} at offset {off} ({note})"
+            loops += ref[0] == "loop"
+            decoded += ref[0] == "ok"
+            if o[0] == "diverge":
+                bad_term = bad_term or f"{show}: {o[1]}"
+                continue
+            if nest > len(buf) + 1:
+                bad_term = bad_term or (f"{show}: {nest} nested activations of {fn.name} although the buffer has only {len(buf)} offsets - an offset that is being "
+                                        "unpacked is unpacked again (no in-progress marker under the offset the call started at)")
+            if o[0] == "raise":
+                if o[1] != STRUCT_ERROR:
+                    bad_exc = bad_exc or f"{show}: raises {o[1]} instead of struct.error"
+                continue
+            v = o[1]
+            if not (isinstance(v, tuple) and len(v) == 2 and isinstance(v[0], str) and isinstance(v[1], int)):
+                raise AnalysisError(f"{NAME_FN} returned {v!r}, not (name, length)")
+            if ref[0] == "loop":
+                bad_exc = bad_exc or f"{show}: the name contains a pointer loop but is decoded as {v!r}: pointer loops are accepted (and callers that follow them need not terminate)"
+            elif ref[0] == "malformed":
+                bad_exc = bad_exc or f"{show}: the name runs past the buffer / has a reserved label type but is decoded as {v!r}"
+            else:
+                if v[1] != ref[1]:
+                    bad_len = bad_len or (f"{show}: decoded as {v!r}, but the name occupies {ref[1]} octet(s) there: the caller continues parsing at the wrong offset"
+                                          + (" (a name that consumes nothing makes scanning loops spin)" if v[1] <= 0 else ""))
+            if thorough:
+                # the cache must be transparent: decoding with the cache filled by earlier offsets gives the same answer
+                it.reset_counters()
+                o2 = it.run(DN, fn.name, buf, off, shared)
+                if _sig(o2) != _sig(o):
+                    bad_len = bad_len or f"{show}: with the name cache filled by the earlier offsets the result is {o2!r}, with an empty cache {o!r}"
+    ctx.cells += runs
+    ctx.require(runs >= 1000 and loops >= 50 and decoded >= 200, f"R25.1: the bounded model collapsed ({runs} runs, {loops} looping and {decoded} well-formed names by the reference)")
+    ctx.check(bad_term is None, "R25.1", where, "name decompression terminates; every offset is unpacked at most once at a time", bad_term or "",
+              desc=f"{runs} (buffer, offset) pairs interpreted: all terminate, at most {deepest} nested activations, never more than offsets + 1")
+    ctx.check(bad_exc is None, "R25.1", where, "pointer loops and malformed names raise struct.error", bad_exc or "",
+              desc=f"{loops} looping names and every malformed one raise struct.error; nothing else is raised")
+    ctx.check(bad_len is None, "R25.1", where, "a decoded name consumes exactly its wire length", bad_len or "",
+              desc=f"{decoded} well-formed names: whenever decoded they consume exactly the octets the reference decoder assigns them (>= 1)")
+    ctx.bounds.append(f"R25.1: all byte strings over {{00,01,02,03,c0}} up to length {5 if thorough else 4} at every offset, plus hand-written chains / cycles")
+    ctx.expect_instances("R25.1", 3)
+
+
+# ---------------------------------------------------------------------------------------------------
+# R25.2  encoder and decoder agree on the RFC 1035 layout (both interpreted, each against the independent reference)
+
+_BASE = {"id": 0x1234, "query": True, "op_code": 0, "authoritative_answer": False, "truncation": False, "recursion_desired": False,
+         "recursion_available": False, "reserved": 0, "response_code": 0, "questions": [("example.com", 1, 1)], "answers": [], "authorities": [],
+         "additionals": []}
+
+
+def _flag_family():
+    out = [dict(_BASE)]
+    for f, sh, w, inv in FLAG_FIELDS:
+        if w == 1:
+            out.append({**_BASE, f: not _BASE[f]})
+        else:
+            out += [{**_BASE, f: 1 << b} for b in range(w)] + [{**_BASE, f: (1 << w) - 1}]
+    out.append({**_BASE, **{f: (True if w == 1 else (1 << w) - 1) for f, sh, w, inv in FLAG_FIELDS}})
+    out.append({**_BASE, **{f: (False if w == 1 else 0) for f, sh, w, inv in FLAG_FIELDS}})
+    out += [{**_BASE, "id": v} for v in (0, 1, 0x00FF, 0x8000, 0xFFFF)]
+    return out
+
+
+def _out_of_range():
+    out = []
+    for f, sh, w, inv in FLAG_FIELDS:
+        if w > 1:
+            out += [(f, 1 << w), (f, -1)]
+    return out + [("id", 1 << 16), ("id", -1)]
+
+
+def _body_family():
+    rr = lambda n, t, c, ttl, d: (n, t, c, ttl, d)  # noqa: E731
+    return [
+        {**_BASE, "query": False, "questions": [("a.example.com", 28, 1), ("b.example.org", 16, 3)],
+         "answers": [rr("a.example.com", 1, 1, 70000, b"\x7f\x00\x00\x01")],
+         "authorities": [rr("example.com", 16, 3, 1, b"\x02hi"), rr("b.example.org", 99, 4, 0x01020304, b"")],
+         "additionals": [rr("x.example.net", 257, 1, 5, bytes(range(40))), rr("a.example.com", 1, 255, 0xFFFFFFFF, b"\x0a\x00\x00\x02"), rr("", 41, 1232, 0, b"\x00\x0a\x00\x08" + b"\x11" * 8)]},
+        {**_BASE, "questions": [], "additionals": [rr("example.com", 16, 1, 300, b"\x05hello")]},
+        {**_BASE, "questions": [("example.com", 255, 255)], "answers": [rr("example.com", 1, 1, 2, b"\x01\x02\x03\x04"), rr("example.com", 1, 1, 3, b"\x05\x06\x07\x08")]},
+        # a big message: an owner name that first occurs beyond offset 0x3fff (where a 14-bit compression pointer cannot reach) and is used again
+        {**_BASE, "query": False, "answers": [rr("big.example.com", 16, 1, 60, b"\x41" * 16400), rr("late.example.net", 1, 1, 60, b"\x0a\x00\x00\x03"),
+                                             rr("late.example.net", 28, 1, 60, bytes(range(16))), rr("late.example.net", 16, 1, 60, b"\x02ok")]},
+    ]
+
+
+def _roundtrip(it, msg, encodings):
+    """-> reason why encoder / decoder disagree with the reference on ``msg`` or None"""
+    o = packed(it, msg)
+    if o[0] != "ok":
+        return f"DNSMessage.packed of a well-formed message ({_brief(msg)}) {o[0]}s {o[1]}"
+    try:
+        back = ref_decode(o[1])
+    except RefError as e:
+        return f"DNSMessage.packed emits {o[1].hex(' ')} for {_brief(msg)}, which is not a DNS message ({e})"
+    if public(back) != msg or back["_length"] != len(o[1]):
+        return f"DNSMessage.packed emits {o[1][:24].hex(' ')}... for {_brief(msg)}, which an RFC 1035 decoder reads differently ({diff(back, msg) or 'trailing bytes'})"
+    for compress in encodings:
+        wire = ref_encode(msg, compress=compress)
+        u = unpack_from(it, wire)
+        if u[0] != "ok":
+            return f"DNSMessage.unpack_from {u[0]}s {u[1]} on the RFC 1035 encoding{' (owner names compressed)' if compress else ''} of {_brief(msg)}"
+        n, got = u[1]
+        if got != msg:
+            return f"DNSMessage.unpack_from reads the RFC 1035 encoding {wire[:24].hex(' ')}... of {_brief(msg)} differently ({diff(got, msg)})"
+        if n != len(wire):
+            return f"DNSMessage.unpack_from reports length {n} for a message of {len(wire)} octets"
+    return None
+
+
+def _brief(msg):
+    d = {k: v for k, v in msg.items() if v != _BASE.get(k)}
+    return ", ".join(f"{k}={v!r}" for k, v in d.items())[:160] or "the base query"
+
+
+def _r25_2(ctx):
+    un, pk = ctx.func(DNS, "DNSMessage.unpack_from"), ctx.func(DNS, "DNSMessage.packed")
+    require_fields(ctx.model)
+    it = DnsInterp(ctx.model, max_steps=2_000_000)
+    bad = []
+    fam = _flag_family()
+    for msg in fam:
+        ctx.cells += 1
+        r = _roundtrip(it, msg, (False,))
+        if r and r not in bad:
+            bad.append(r)
+    for f, v in _out_of_range():
+        ctx.cells += 1
+        o = packed(it, {**_BASE, f: v})
+        if o[0] == "ok":
+            bad.append(f"DNSMessage.packed accepts {f}={v}, which does not fit its header field, and emits {o[1][:4].hex(' ')}...: the value spills into / is cut off from the neighbouring bits")
+    ctx.check(not bad, "R25.2", (DNS, "DNSMessage.packed", pk), "flag bit layout packed vs unpack_from", "; ".join(bad[:3]),
+              desc=f"{len(fam)} header variants (every flag bit alone, all, none, id corners): packed and unpack_from agree with the RFC 1035 layout; out-of-range fields are refused")
+    bad = []
+    fam = _body_family()
+    for msg in fam:
+        ctx.cells += 1
+        r = _roundtrip(it, msg, (False, True))
+        if r and r not in bad:
+            bad.append(r)
+    ctx.check(not bad, "R25.2", (DNS, "DNSMessage.unpack_from", un), "word order and struct formats packed vs unpack_from", "; ".join(bad[:3]),
+              desc=f"{len(fam)} messages with distinct counts / types / classes / 32-bit TTLs in every section (one > 16 KiB with a late, repeated owner name): header words, question words, record words and sections agree")
+    ctx.expect_instances("R25.2", 2)
 
 
 # ---------------------------------------------------------------------------------------------------
@@ -70,71 +317,436 @@ def _call_sites(model, fname):
     return out
 
 
-def _make_discharge(ctx):
+def _never_written(fn, name) -> bool:
+    return not any(w == name or w.startswith(name + ".") for _, w in _writes(fn))
+
+
+def _params(fn):
+    a = fn.args
+    return [x.arg for x in a.posonlyargs + a.args + a.kwonlyargs]
+
+
+class _Lin:
+    """linear forms over the names of one function: {term: coefficient, '#': constant}; single-assignment temporaries whose
+    right-hand side only mentions names that are never rebound are replaced by their definition"""
+
+    def __init__(self, fn):
+        self.fn = fn
+        self._temps: dict = {}
+
+    def temp(self, name):
+        if name in self._temps:
+            return self._temps[name]
+        self._temps[name] = None
+        fn = self.fn
+        if name in _params(fn):
+            return None
+        binds = [w for _, w in _writes(fn) if w == name]
+        defs = [n for n in _own_nodes(fn) if isinstance(n, (ast.Assign, ast.AnnAssign)) and n.value is not None
+                and any(isinstance(t, ast.Name) and t.id == name for t in (n.targets if isinstance(n, ast.Assign) else [n.target]))]
+        if len(binds) != 1 or len(defs) != 1:
+            return None
+        rhs = defs[0].value
+        if not all(_never_written(fn, x.id) for x in ast.walk(rhs) if isinstance(x, ast.Name)):
+            return None
+        self._temps[name] = self.of(rhs)
+        return self._temps[name]
+
+    @staticmethod
+    def _add(a, b, k=1):
+        out = dict(a)
+        for t, c in b.items():
+            out[t] = out.get(t, 0) + k * c
+        return {t: c for t, c in out.items() if c != 0 or t == "#"}
+
+    def of(self, e):
+        if isinstance(e, ast.Constant) and isinstance(e.value, int) and not isinstance(e.value, bool):
+            return {"#": e.value}
+        if isinstance(e, ast.Name):
+            t = self.temp(e.id)
+            return t if t is not None else {e.id: 1}
+        if isinstance(e, ast.BinOp) and isinstance(e.op, (ast.Add, ast.Sub)):
+            a, b = self.of(e.left), self.of(e.right)
+            if a is None or b is None:
+                return None
+            return self._add(a, b, 1 if isinstance(e.op, ast.Add) else -1)
+        if isinstance(e, ast.UnaryOp) and isinstance(e.op, ast.USub):
+            a = self.of(e.operand)
+            return None if a is None else self._add({}, a, -1)
+        if isinstance(e, ast.Call) and isinstance(e.func, ast.Name) and e.func.id == "len" and len(e.args) == 1 and isinstance(e.args[0], ast.Name):
+            return {f"len({e.args[0].id})": 1}
+        if isinstance(e, ast.Attribute) and attr_chain(e):
+            return {attr_chain(e): 1}
+        return None
+
+    def strict_facts(self, node):
+        """[(L, R)] with L < R known to hold when ``node`` is evaluated"""
+        out = []
+        for e, v in guards_at(node, self.fn):
+            if not (isinstance(e, ast.Compare) and len(e.ops) == 1):
+                continue
+            l, r, op = e.left, e.comparators[0], type(e.ops[0])
+            if (op is ast.Lt and v) or (op is ast.GtE and not v):
+                out.append((l, r))
+            elif (op is ast.Gt and v) or (op is ast.LtE and not v):
+                out.append((r, l))
+        return out
+
+
+def _len_established(model, fn, base, bound, depth=0):
+    """every caller of ``fn`` calls it with len(<base argument>) >= <bound argument> established -> number of call sites, else 0"""
+    if depth > 3:
+        return 0
+    params = [a.arg for a in fn.args.posonlyargs + fn.args.args]
+    sites = [(m, c) for m, c in _call_sites(model, fn.name)]
+    if not sites:
+        return 0
+    total = 0
+    for m, c in sites:
+        ps = params[1:] if params[:1] in (["self"], ["cls"]) and isinstance(c.func, ast.Attribute) else params
+        args = {ps[i]: a for i, a in enumerate(c.args) if i < len(ps) and not isinstance(a, ast.Starred)}
+        args.update({k.arg: k.value for k in c.keywords if k.arg})
+        if base not in args or bound not in args:
+            return 0
+        ef = enclosing_func(c)
+        if ef is None:
+            return 0
+        b, e = norm(args[base]), norm(args[bound])
+        if ef is fn and (b, e) == (base, bound) and _never_written(fn, base) and _never_written(fn, bound):
+            continue  # recursion that passes both on unchanged
+        ok = False
+        for g, v in guards_at(c, ef):
+            if not (isinstance(g, ast.Compare) and len(g.ops) == 1):
+                continue
+            l, r, op = norm(g.left), norm(g.comparators[0]), type(g.ops[0])
+            if (l, r) == (f"len({b})", e) and ((op is ast.Lt and not v) or (op is ast.GtE and v)):
+                ok = True
+            if (l, r) == (e, f"len({b})") and ((op is ast.Gt and not v) or (op is ast.LtE and v)):
+                ok = True
+        if ok:
+            total += 1
+            continue
+        # passed through unchanged from the caller's own parameters: the obligation moves one level up
+        if (isinstance(args[base], ast.Name) and isinstance(args[bound], ast.Name) and b in _params(ef) and e in _params(ef)
+                and _never_written(ef, b) and _never_written(ef, e) and ef is not fn):
+            n = _len_established(model, ef, b, e, depth + 1)
+            if n:
+                total += n
+                continue
+        return 0
+    return total
+
+
+def _arity(fn, e, depth=0):
+    """number of elements of the tuple ``e`` evaluates to inside ``fn`` when that is evident from the code, else None"""
+    if isinstance(e, ast.Tuple) and not any(isinstance(x, ast.Starred) for x in e.elts):
+        return len(e.elts)
+    if isinstance(e, ast.Name) and depth < 3:
+        binds = [w for _, w in _writes(fn) if w == e.id]
+        defs = [n for n in _own_nodes(fn) if isinstance(n, (ast.Assign, ast.AnnAssign)) and n.value is not None
+                and any(isinstance(t, ast.Name) and t.id == e.id for t in (n.targets if isinstance(n, ast.Assign) else [n.target]))]
+        if defs and len(binds) == len(defs):
+            ar = {_arity(fn, d.value, depth + 1) for d in defs}
+            if len(ar) == 1:
+                return ar.pop()
+    return None
+
+
+def _return_arity(f):
+    """arity of the tuple ``f`` returns: evident from every return statement, or declared (`-> tuple[A, B]`, checked by the repository's mypy run)"""
+    rets = [n for n in _own_nodes(f) if isinstance(n, ast.Return)]
+    ar = {_arity(f, r.value) if r.value is not None else None for r in rets}
+    if len(ar) == 1 and rets and None not in ar:
+        return ar.pop()
+    ann = f.returns
+    if isinstance(ann, ast.Constant) and isinstance(ann.value, str):
+        try:
+            ann = ast.parse(ann.value, mode="eval").body
+        except SyntaxError:
+            return None
+    if isinstance(ann, ast.Subscript) and norm(ann.value).split(".")[-1] in ("tuple", "Tuple"):
+        elts = ann.slice.elts if isinstance(ann.slice, ast.Tuple) else [ann.slice]
+        if elts and not any(isinstance(x, ast.Constant) and x.value is Ellipsis for x in elts):
+            return len(elts)
+    return None
+
+
+def _make_discharge(ctx, bounded):
     model = ctx.model
 
-    def discharge(fr, exc, node, why):
-        # buffer[offset + data_offset] in decompress_from_record_data: index < end_data <= len(buffer)
-        if exc != "IndexError" or not isinstance(node, ast.Subscript) or not isinstance(node.value, ast.Name):
+    def tuple_index_discharge(fr, node):
+        # res = f(..) ... res[0]: f returns a tuple display of evident arity on every path
+        if not (isinstance(node, ast.Subscript) and isinstance(node.value, ast.Name) and isinstance(node.slice, ast.Constant) and isinstance(node.slice.value, int)):
             return None
-        idx = node.slice
-        if not (isinstance(idx, ast.BinOp) and isinstance(idx.op, ast.Add)):
+        c, name, fn = node.slice.value, node.value.id, fr.fn
+        binds = [w for _, w in _writes(fn) if w == name]
+        defs = [n for n in _own_nodes(fn) if isinstance(n, (ast.Assign, ast.AnnAssign)) and n.value is not None
+                and any(isinstance(t, ast.Name) and t.id == name for t in (n.targets if isinstance(n, ast.Assign) else [n.target]))]
+        if not defs or len(binds) != len(defs):
+            return None
+        least = None
+        for d in defs:
+            ar = _arity(fn, d.value)
+            if ar is None and isinstance(d.value, ast.Call):
+                t = fr.resolve_call(d.value)
+                if t is not None and t[0] == "fn":
+                    ar = _return_arity(t[2])
+            if ar is None:
+                return None
+            least = ar if least is None else min(least, ar)
+        if (c >= 0 and c < least) or (c < 0 and -c <= least):
+            return f"{name} is always bound to a tuple of {least} elements (tuple displays / the callee's declared fixed-size tuple), index {c} exists"
+        return None
+
+    def index_discharge(fr, node):
+        # buffer[offset + data_offset] in decompress_from_record_data: index < end_data <= len(buffer)
+        if not isinstance(node, ast.Subscript) or not isinstance(node.value, ast.Name):
             return None
         fn = fr.fn
-        params = [a.arg for a in fn.args.args]
+        params = [a.arg for a in fn.args.posonlyargs + fn.args.args]
         base = node.value.id
-        if base not in params:
+        if base not in params or not _never_written(fn, base):
             return None
-        x, y = norm(idx.left), norm(idx.right)
-        bound = None
-        for e, v in guards_at(node, fn):
-            if v and isinstance(e, ast.Compare) and len(e.ops) == 1 and isinstance(e.ops[0], ast.Lt):
-                r = e.comparators[0]
-                if isinstance(r, ast.BinOp) and isinstance(r.op, ast.Sub) and isinstance(r.left, ast.Name) and r.left.id in params:
-                    if (norm(e.left), norm(r.right)) in ((y, x), (x, y)):
-                        bound = r.left.id
-        if bound is None:
+        lin = _Lin(fn)
+        idx = lin.of(node.slice)
+        if idx is None:
             return None
-        sites = [(m, c) for m, c in _call_sites(model, fn.name) if c is not node]
-        if not sites:
-            return None
-        for m, c in sites:
-            args = {params[i]: a for i, a in enumerate(c.args) if i < len(params)}
-            args.update({k.arg: k.value for k in c.keywords if k.arg})
-            if base not in args or bound not in args:
-                return None
-            from ..model import enclosing_func
+        for l, r in lin.strict_facts(node):
+            L, R = lin.of(l), lin.of(r)
+            if L is None or R is None:
+                continue
+            gap = lin._add(R, L, -1)  # >= 1
+            for p in params:
+                if p == base or not _never_written(fn, p):
+                    continue
+                rest = lin._add(lin._add({p: 1}, idx, -1), gap, -1)  # (p - index) - (R - L)
+                if all(c == 0 for t, c in rest.items() if t != "#") and rest.get("#", 0) >= 0:
+                    n = _len_established(model, fn, base, p)
+                    if n:
+                        return (f"index {norm(node.slice)} < {p} follows from the guard {norm(l)} < {norm(r)}, and every caller ({n}) established "
+                                f"len({base}) >= {p} before the call; offsets are non-negative counters")
+        return None
 
-            ef = enclosing_func(c)
-            want = f"len({norm(args[base])}) < {norm(args[bound])}"
-            if ef is None or not any((not v) and norm(e) == want for e, v in guards_at(c, ef)):
-                return None
-        return (f"index {x} + {y} < {bound} by the loop guard, and every caller ({len(sites)}) established len({base}) >= {bound} "
-                f"before the call; offsets are non-negative counters")
+    def case_guard_discharge(fr, node):
+        # `case ... if key in table: ... table[key]`: the membership test of the enclosing match-case guard dominates the read
+        if not isinstance(node, ast.Subscript):
+            return None
+        key, cont = norm(node.slice), norm(node.value)
+        child, p = node, getattr(node, "_parent", None)
+        while p is not None and p is not fr.fn:
+            if isinstance(p, ast.match_case) and p.guard is not None and any(child is st for st in p.body):
+                conj = p.guard.values if isinstance(p.guard, ast.BoolOp) and isinstance(p.guard.op, ast.And) else [p.guard]
+                for g in conj:
+                    if (isinstance(g, ast.Compare) and len(g.ops) == 1 and isinstance(g.ops[0], ast.In) and norm(g.left) == key and norm(g.comparators[0]) == cont):
+                        at, use = (p.guard.end_lineno, p.guard.end_col_offset), (node.lineno, node.col_offset)
+                        names = {x.id for x in ast.walk(node) if isinstance(x, ast.Name)}
+                        if not any(at <= pos < use and w.split(".")[0] in names for pos, w in _writes(fr.fn)):
+                            return f"`{key} in {cont}` holds: it is the guard of the enclosing match case"
+            child, p = p, getattr(p, "_parent", None)
+        return None
+
+    def discharge(fr, exc, node, why):
+        if exc in ("KeyError", "IndexError") and why.startswith("trusted container"):
+            return case_guard_discharge(fr, node)
+        if exc == "IndexError":
+            return index_discharge(fr, node) or tuple_index_discharge(fr, node)
+        if exc == "AssertionError" and isinstance(node, ast.Assert):
+            seen = bounded().get((fr.mod.rel, node.lineno, node.col_offset))
+            if seen and seen[0] >= 5 and seen[1] == 0:
+                return (f"`{norm(node)[:60]}` was evaluated {seen[0]} times in the bounded model of DNSMessage.unpack (well-formed messages, every kind of "
+                        "truncation, boundary-value byte mutations) and held every time: an invariant of the code, not a check of the input")
+        return None
 
     return discharge
+
+
+def _logging_object(mod, e) -> bool:
+    """``e`` denotes the logging module or a module-level logger (NAME = logging.getLogger(..))"""
+    if not isinstance(e, ast.Name):
+        return False
+    if mod.imports.get(e.id) == "logging":
+        return True
+    vals = mod.assigns(e.id)
+    if len(vals) == 1 and isinstance(vals[0], ast.Call):
+        f = vals[0].func
+        if isinstance(f, ast.Attribute) and f.attr == "getLogger" and isinstance(f.value, ast.Name) and mod.imports.get(f.value.id) == "logging":
+            return True
+        if isinstance(f, ast.Name) and mod.imports.get(f.id) == "logging.getLogger":
+            return True
+    return False
+
+
+_LOG_METHODS = ("debug", "info", "warning", "warn", "error", "exception", "critical", "log")
+
+
+def _dynamic(fr, call):
+    f = call.func
+    if not isinstance(f, ast.Attribute) or not isinstance(f.value, ast.Name):
+        return None
+    # logging swallows everything that goes wrong while formatting / emitting a record: a log call raises nothing
+    if f.attr in _LOG_METHODS and not fr._is_local(f.value.id) and _logging_object(fr.mod, f.value):
+        return ("raises", (), None)
+    # `cls.helper(..)` / `self.helper(..)` inside a closure of a method: cls / self is the enclosing method's
+    if f.value.id in ("self", "cls") and fr.cls is not None and not fr._is_local(f.value.id):
+        g = enclosing_func(fr.fn)
+        while g is not None:
+            if f.value.id in [a.arg for a in g.args.posonlyargs + g.args.args][:1]:
+                r = fr.eng.model.method(fr.mod.rel, fr.cls._qual, f.attr)
+                if r is not None:
+                    return [(r[0].rel, r[1]._qual)]
+                return None
+            g = enclosing_func(g)
+    return None
+
+
+def _recursion_bounds(ctx) -> dict:
+    """{'rel::function': reason} for the repository functions whose recursion depth on a *long* pointer chain stays far below the
+    interpreter's recursion limit: the name decoder is interpreted on a chain of 1200 forward pointers (2.4 kB - an ordinary size for
+    a DNS message) and must stop by itself (struct.error) with a small number of live activations."""
+    import sys
+
+    n = 1200
+    chain = b"".join(struct.pack("!H", 0xC000 | (2 * i + 2)) for i in range(n)) + b"\x00"
+    it = DnsInterp(ctx.model, max_steps=3_000_000, max_depth=400)
+    old = sys.getrecursionlimit()
+    sys.setrecursionlimit(max(old, 40000))
+    try:
+        o = it.run(DN, NAME_FN, chain, 0, {})
+    finally:
+        sys.setrecursionlimit(old)
+    ctx.cells += 1
+    deepest = max(it.max_nesting.values(), default=0)
+    if o != ("raise", STRUCT_ERROR) or deepest > 250:
+        return {}
+    why = f"interpreted on a chain of {n} compression pointers the name decoder gives up with struct.error at {deepest} live activations: the depth is bounded by the code, not by the input"
+    return {f"{rel}::{name}": why for (rel, name), k in it.max_nesting.items() if k > 1}
+
+
+class _DecoderModel:
+    """bounded model of DNSMessage.unpack, interpreted: well-formed messages, truncations, boundary-value mutations.
+    Used (a) to find concrete escapes and (b) to tell invariants stated as ``assert`` from input checks written as ``assert``."""
+
+    MUT = (0x00, 0x3F, 0x40, 0xBF, 0xC0, 0xC1, 0xFF)
+
+    def __init__(self, ctx):
+        self.ctx = ctx
+        self.asserts = None
+        self.escapes: dict = {}
+        self.runs = 0
+
+    @staticmethod
+    def messages():
+        q = ("example.com", 15, 1)
+        base = {**_BASE, "query": False, "recursion_desired": True, "recursion_available": True, "questions": [q]}
+        wire = bytearray(ref_encode({**base, "answers": [], "authorities": [], "additionals": []}))
+        # hand-assembled so that RDATA carries compressed names: MX, SOA (two names + five counters), TXT with pointer-like octets, A
+        def rr(owner, t, ttl, rdata):
+            return owner + struct.pack("!HHIH", t, 1, ttl, len(rdata)) + rdata
+        ptr_q = b"\xc0\x0c"
+        recs = [
+            rr(ptr_q, 15, 300, b"\x00\x0a\x04mail" + ptr_q),
+            rr(ptr_q, 6, 3600, b"\x02ns" + ptr_q + b"\x0ahostmaster" + ptr_q + struct.pack("!IIIII", 2024010101, 7200, 900, 1209600, 300)),
+            rr(b"\x03txt" + ptr_q, 16, 60, b"\x05hello\xc0\x0c\xff"),
+            rr(b"\x0dxn--bcher-kva" + ptr_q, 1, 5, b"\x7f\x00\x00\x01"),
+        ]
+        query = bytes(wire)
+        wire[6:12] = struct.pack("!HHH", 1, 1, 2)
+        return [query, bytes(wire) + b"".join(recs)]
+
+    def get(self):
+        if self.asserts is None:
+            self.run()
+        return self.asserts
+
+    def run(self):
+        ctx = self.ctx
+        it = DnsInterp(ctx.model, max_steps=5_000_000, max_depth=48)
+        thorough = ctx.tier == "thorough"
+        inputs = []
+        for wire in self.messages():
+            inputs.append(wire)
+            inputs += [wire[:n] for n in range(0, len(wire), 1 if thorough else 4)]
+            inputs.append(wire + b"\x00")
+            for i in range(0, len(wire), 1 if thorough else 3):
+                for k, v in enumerate(self.MUT):
+                    if (i + k) % len(self.MUT) == 0 or (thorough and (i + k) % len(self.MUT) == 3):
+                        inputs.append(wire[:i] + bytes([v]) + wire[i + 1:])
+        ok = 0
+        for buf in dict.fromkeys(inputs):
+            o = unpack(it, buf)
+            self.runs += 1
+            if o[0] == "ok":
+                ok += 1
+            elif o[0] == "diverge":
+                self.escapes.setdefault("<does not terminate>", (buf, o[1]))
+            elif o[1] != STRUCT_ERROR:
+                self.escapes.setdefault(o[1], (buf, ""))
+        # the layer's reader in front of the decoder (DNS over TCP framing): well-formed stream whole / in pieces, zero and oversized
+        # length prefixes, a truncated and a corrupted message behind a correct prefix; datagrams
+        query, full = self.messages()
+        frame = lambda b: struct.pack("!H", len(b)) + b  # noqa: E731
+        stream = frame(query) + frame(full)
+        feeds = [[stream], [stream[:1], stream[1:40], stream[40:]], [stream[:2], stream[2:len(query) + 3], stream[len(query) + 3:-1], stream[-1:]], [frame(full) + frame(query) + frame(full)], [frame(query)[:-3]], [b"\x00\x00" + query], [struct.pack("!H", len(full)) + full[:-5] + frame(query)],
+                 [frame(full[:40])], [frame(query[:3])], [b"\xff"], [b""]]
+        framed_ok = 0
+        for proto, chunks in [("tcp", f) for f in feeds] + [("udp", [full]), ("udp", [full[:30]]), ("udp", [b""])]:
+            me = layer_self(proto)
+            for chunk in chunks:
+                o = layer_unpack(it, me, chunk)
+                self.runs += 1
+                if o[0] == "ok":
+                    framed_ok += len(o[1])
+                elif o[0] == "diverge":
+                    self.escapes.setdefault("<does not terminate>", (chunk, o[1]))
+                elif o[1] != STRUCT_ERROR:
+                    self.escapes.setdefault(o[1], (chunk, ""))
+                if o[0] != "ok":
+                    break
+        ctx.cells += self.runs
+        ctx.require(ok >= 2 and framed_ok >= 5, "the bounded model of DNSMessage.unpack / DNSLayer.unpack_message decodes none of its well-formed messages (model out of date)")
+        self.asserts = dict(it.asserts)
+        ctx.note(f"R25.3: bounded model of DNSMessage.unpack and the layer's reader: {self.runs} byte strings interpreted, {ok} + {framed_ok} decode, the others raise struct.error"
+                 + (f"; escapes {sorted(self.escapes)}" if self.escapes else ""))
 
 
 def _r25_3(ctx):
     fn = ctx.func(LAYER, "DNSLayer.state_query")
     for q in ("DNSMessage.unpack", "DNSMessage.unpack_from"):
         ctx.func(DNS, q)
-    for q in ("unpack_from_with_compression", "_unpack_label_into", "decompress_from_record_data", "pack"):
+    for q in (NAME_FN, "decompress_from_record_data", "pack"):
         ctx.func(DN, q)
     ctx.func(LAYER, "DNSLayer.unpack_message")
-    tries = [n for n in walk_in_order(fn) if isinstance(n, ast.Try) and any("self.unpack_message(" in norm(s) for s in n.body)]
+
+    def reaches_unpack(stmts, depth=0):
+        """the statements call self.unpack_message, directly or through private helper methods of the layer"""
+        for st in stmts:
+            for n in walk_in_order(st):
+                if isinstance(n, ast.Call) and norm(n.func) == "self.unpack_message":
+                    return True
+                if isinstance(n, ast.Call) and norm(n.func).startswith("self._") and depth < 2:
+                    r = ctx.model.method(LAYER, "DNSLayer", norm(n.func)[5:]) if norm(n.func).count(".") == 1 else None
+                    if r is not None and reaches_unpack(r[1].body, depth + 1):
+                        return True
+        return False
+
+    tries = [n for n in walk_in_order(fn) if isinstance(n, ast.Try) and reaches_unpack(n.body)]
     ctx.require(len(tries) == 1, "DNSLayer.state_query: the try around unpack_message changed shape")
     t = tries[0]
-    call = [n for n in walk_in_order(t) if isinstance(n, ast.Call) and norm(n.func) == "self.unpack_message"]
-    ctx.require(len(call) == 1 and norm(call[0].args[0]) == "event.data", "unpack_message is no longer fed event.data")
-    mr = MayRaise(ctx, Config(discharge=_make_discharge(ctx)))
-    env = {"event.data": "V"}
+    # untrusted: the received bytes - event.data, the event that carries them, and any local that holds them
+    env = {"event.data": "V", "event": "V"}
+    for n in _own_nodes(fn):
+        if isinstance(n, ast.Assign) and norm(n.value) == "event.data":
+            env.update({x.id: "V" for x in n.targets if isinstance(x, ast.Name)})
+    model = _DecoderModel(ctx)
+    mr = MayRaise(ctx, Config(discharge=_make_discharge(ctx, model.get), dynamic=_dynamic, bounded_recursion=_recursion_bounds(ctx)))
     esc = mr.region(LAYER, "DNSLayer.state_query", t.body, env)
     key = mr.key_of_region(LAYER, "DNSLayer.state_query", env)
-    ctx.require(mr.sites >= 25 and len(mr.functions) >= 9, f"escape analysis collapsed: {mr.sites} raiser sites in {sorted(mr.functions)}")
+    need = {f"{LAYER}::DNSLayer.unpack_message", f"{DNS}::DNSMessage.unpack", f"{DNS}::DNSMessage.unpack_from", f"{DN}::{NAME_FN}", f"{DN}::decompress_from_record_data", f"{DN}::pack"}
+    ctx.require(mr.sites >= 15 and need <= set(mr.functions), f"escape analysis collapsed: {mr.sites} raiser sites in {sorted(mr.functions)}")
     ctx.paths += mr.sites
     for f in mr.functions:
         ctx.functions.add(f)
+    model.get()
     handled = []
     for h in t.handlers:
         ctx.require(h.type is not None, "bare except around unpack_message (not modelled)")
@@ -145,264 +757,23 @@ def _r25_3(ctx):
         ctx.fail("R25.3", (LAYER, "DNSLayer.state_query", t), f"{typ} escapes DNSMessage.unpack",
                  f"{typ} raised at {first.site()} ({first.why}) is not handled (handled: {handled}); call chain: " + " -> ".join(mr.chain(key, first)),
                  chain=mr.chain(key, first), sites=[e.site() for e in bad if e.exc == typ][:8])
-    if not bad:
+    # concrete escapes of the bounded model: a witness, whatever the static analysis says
+    witnessed = 0
+    for typ, (buf, msg) in sorted(model.escapes.items()):
+        if typ != "<does not terminate>" and typ in mr.h.parents and any(mr.h.isa(typ, h) for h in handled):
+            continue
+        witnessed += 1
+        if any(e.exc == typ for e in bad):
+            continue
+        ctx.fail("R25.3", (LAYER, "DNSLayer.state_query", t), f"{typ} escapes DNSMessage.unpack",
+                 f"interpreting DNSMessage.unpack on the {len(buf)} octets {buf[:48].hex(' ')}{'...' if len(buf) > 48 else ''} ends with {typ} {msg}(handled: {handled})", message=buf.hex())
+    if not bad and not witnessed:
         ctx.ok("R25.3", f"{mr.sites} raiser sites in {len(mr.functions)} functions; escape set {sorted({e.exc for e in esc})} within handled {handled}")
     for k, v in sorted(mr.discharged.items()):
         ctx.assume(f"discharged: {k}: {v}")
     ctx.sample({"rule": "R25.3", "handled": handled, "escape_set": sorted({e.exc for e in esc}), "discharged": dict(mr.discharged),
                 "functions": sorted(mr.functions)})
     ctx.expect_instances("R25.3", 1)
-
-
-# ---------------------------------------------------------------------------------------------------
-# R25.1
-
-
-def _r25_1(ctx):
-    fn = ctx.func(DN, "unpack_from_with_compression")
-    params = [a.arg for a in fn.args.args]
-    off, cache = params[1], params[2]
-    sentinel = f"{cache}[{off}]"
-
-    def keep(ev):
-        return (ev[0] == "call" and ev[1] == fn.name) or (ev[0] == "assign" and ev[1] in (sentinel, off)) or ev[0] == "cond"
-
-    spec = GenericSpec(keep=keep, record_conds=True, unroll=2)
-    traces, eng = traces_of(fn, spec)
-    ctx.paths += len(traces)
-    rec = 0
-    bad = None
-    for tr, how, st in traces:
-        seen_store = False
-        for ev in tr:
-            if ev[0] == "assign" and ev[1] == sentinel:
-                seen_store = True
-            elif ev[0] == "assign" and ev[1] == off and not seen_store and any(e[0] == "call" for e in tr):
-                bad = bad or f"`{off}` is advanced before the sentinel is stored on a path that recurses"
-            elif ev[0] == "call":
-                rec += 1
-                if not seen_store:
-                    bad = bad or "a path reaches the recursive call without having stored the sentinel"
-    ctx.require(rec >= 1, "unpack_from_with_compression no longer recurses (shape not modelled)")
-    # the stored value is None
-    stores = [n for n in walk_in_order(fn) if isinstance(n, ast.Assign) and any(norm(t) == sentinel for t in n.targets)]
-    none_store = [n for n in stores if isinstance(n.value, ast.Constant) and n.value.value is None]
-    if not none_store:
-        bad = bad or "no `cache[offset] = None` sentinel store"
-    ctx.check(bad is None, "R25.1", (DN, fn.name, fn), f"{sentinel} = None before the recursive call", bad or "",
-              desc=f"sentinel stored before recursing on all {len(traces)} paths ({rec} recursive-call events)")
-    # a hit on the sentinel raises
-    hit_ok, hits = True, 0
-    for tr, how, st in traces:
-        conds = {(e[1], e[2]) for e in tr if e[0] == "cond"}
-        if (f"{off} in {cache}", True) in conds:
-            res_none = [c for c in conds if c[0].endswith("is None") and c[1] is True]
-            if res_none:
-                hits += 1
-                if not how.startswith("raise:"):
-                    hit_ok = False
-            if any(e[0] == "call" for e in tr):
-                hit_ok = False  # a cached offset must never be unpacked again
-    ctx.check(hit_ok and hits >= 1, "R25.1", (DN, fn.name, fn), "cache hit on the sentinel raises", "a pointer to an offset that is being unpacked does not raise: pointer loops recurse forever",
-              desc=f"{hits} path(s) hitting the None sentinel all raise; cached offsets are never unpacked again")
-    # progress of the label loops
-    lab = ctx.func(DN, "_unpack_label_into")
-    rets = [n.value for n in walk_in_order(lab) if isinstance(n, ast.Return)]
-    ok = bool(rets) and all(r is not None and (norm(r) == "_LABEL_SIZE.size" or (isinstance(r, ast.BinOp) and isinstance(r.op, ast.Add) and "_LABEL_SIZE.size" in (norm(r.left), norm(r.right)))) for r in rets)
-    fmt = ctx.model.const(DN, "_LABEL_SIZE")
-    ok = ok and norm(fmt) in ("struct.Struct('!B')", 'struct.Struct("!B")')
-    ctx.check(ok, "R25.1", (DN, lab.name, lab), "_unpack_label_into returns _LABEL_SIZE.size [+ size]", "a label may consume zero bytes: the label loops need not advance",
-              desc="every label consumes >= 1 byte (unsigned size)")
-    ctx.expect_instances("R25.1", 3)
-
-
-# ---------------------------------------------------------------------------------------------------
-# R25.2
-
-
-def _int(e):
-    try:
-        v = ast.literal_eval(e)
-    except Exception:
-        return None
-    return v if isinstance(v, int) and not isinstance(v, bool) else None
-
-
-def _shift_of(e):
-    """`1 << N` -> N"""
-    if isinstance(e, ast.BinOp) and isinstance(e.op, ast.LShift) and _int(e.left) == 1:
-        return _int(e.right)
-    return None
-
-
-def _unpack_field(e, var="flags"):
-    """-> (shift, width, inverted) of a header field expression over ``flags``."""
-    if isinstance(e, ast.Compare) and len(e.ops) == 1 and _int(e.comparators[0]) == 0:
-        l = e.left
-        if isinstance(l, ast.BinOp) and isinstance(l.op, ast.BitAnd) and norm(l.left) == var:
-            n = _shift_of(l.right)
-            if n is not None:
-                return (n, 1, isinstance(e.ops[0], ast.Eq))
-        return None
-    if isinstance(e, ast.BinOp) and isinstance(e.op, ast.BitAnd):
-        mask = _int(e.right)
-        if mask is None or (mask & (mask + 1)) != 0:
-            return None
-        width = mask.bit_length()
-        if norm(e.left) == var:
-            return (0, width, False)
-        l = e.left
-        if isinstance(l, ast.BinOp) and isinstance(l.op, ast.RShift) and norm(l.left) == var and _int(l.right) is not None:
-            return (_int(l.right), width, False)
-    return None
-
-
-def _r25_2(ctx):
-    un, pk = ctx.func(DNS, "DNSMessage.unpack_from"), ctx.func(DNS, "DNSMessage.packed")
-    ctor = [n for n in walk_in_order(un) if isinstance(n, ast.Call) and norm(n.func) == "DNSMessage"]
-    ctx.require(len(ctor) == 1, "unpack_from: DNSMessage(...) construction changed shape")
-    ufields = {}
-    for kw in ctor[0].keywords:
-        if "flags" in {x.id for x in ast.walk(kw.value) if isinstance(x, ast.Name)}:
-            f = _unpack_field(kw.value)
-            ctx.require(f is not None, f"unpack_from: unmodelled flag expression for {kw.arg}: {norm(kw.value)}")
-            ufields[kw.arg] = f
-    # pack side
-    pfields, ranges, order = {}, {}, []
-    for st in pk.body:
-        if isinstance(st, ast.If) and isinstance(st.test, ast.BoolOp) and any(isinstance(x, ast.Raise) for x in st.body):
-            # range check: self.X < 0 or self.X > MAX
-            names = {n.attr for n in ast.walk(st.test) if isinstance(n, ast.Attribute) and norm(n.value) == "self"}
-            mx = [_int(c.comparators[0]) for c in st.test.values if isinstance(c, ast.Compare) and isinstance(c.ops[0], ast.Gt)]
-            mn = [_int(c.comparators[0]) for c in st.test.values if isinstance(c, ast.Compare) and isinstance(c.ops[0], ast.Lt)]
-            if len(names) == 1 and len(mx) == 1 and mn == [0]:
-                ranges[names.pop()] = (mx[0], st.lineno)
-            continue
-        target = st
-        inverted = None
-        if isinstance(st, ast.If) and len(st.body) == 1 and isinstance(st.body[0], ast.AugAssign) and not st.orelse:
-            t = st.test
-            inverted = isinstance(t, ast.UnaryOp) and isinstance(t.op, ast.Not)
-            t = t.operand if inverted else t
-            if isinstance(t, ast.Attribute) and norm(t.value) == "self":
-                n = _shift_of(st.body[0].value)
-                if norm(st.body[0].target) == "flags" and isinstance(st.body[0].op, ast.BitOr) and n is not None:
-                    pfields[t.attr] = (n, 1, inverted)
-                    order.append((t.attr, st.lineno))
-                    continue
-        if isinstance(target, ast.AugAssign) and norm(target.target) == "flags" and isinstance(target.op, ast.BitOr):
-            v = target.value
-            if isinstance(v, ast.Attribute) and norm(v.value) == "self":
-                pfields[v.attr] = (0, None, False)
-                order.append((v.attr, target.lineno))
-            elif isinstance(v, ast.BinOp) and isinstance(v.op, ast.LShift) and isinstance(v.left, ast.Attribute) and norm(v.left.value) == "self" and _int(v.right) is not None:
-                pfields[v.left.attr] = (_int(v.right), None, False)
-                order.append((v.left.attr, target.lineno))
-            else:
-                raise AnalysisError(f"packed: unmodelled flags update {norm(target)}")
-    bad = []
-    for name, (sh, w, inv) in pfields.items():
-        if w is None:
-            if name not in ranges:
-                bad.append(f"{name}: packed without a range check")
-                continue
-            mx, line = ranges[name]
-            if (mx & (mx + 1)) != 0:
-                bad.append(f"{name}: range maximum {mx} is not 2^k-1")
-            w = mx.bit_length()
-            if line > dict(order)[name]:
-                bad.append(f"{name}: range check after packing")
-            pfields[name] = (sh, w, inv)
-    for name in sorted(set(ufields) | set(pfields)):
-        ctx.cells += 1
-        if ufields.get(name) != pfields.get(name):
-            bad.append(f"{name}: unpacked as (shift,width,inverted)={ufields.get(name)} but packed as {pfields.get(name)}")
-    bits = 0
-    for name, (sh, w, inv) in ufields.items():
-        m = ((1 << w) - 1) << sh
-        if bits & m:
-            bad.append(f"{name}: overlaps another field")
-        bits |= m
-    if bits != 0xFFFF:
-        bad.append(f"flag fields cover {bits:#06x}, not the 16 header bits")
-    ctx.check(not bad and len(ufields) == 8, "R25.2", (DNS, "DNSMessage.packed", pk), "flag bit layout packed vs unpack_from", "; ".join(bad),
-              desc=f"8 flag fields agree and tile 16 bits: {sorted(ufields.items(), key=lambda kv: -kv[1][0])}", layout=ufields)
-
-    # header words, question words, RR words: order + struct constants
-    def struct_calls(fn, meth):
-        return [n for n in walk_in_order(fn) if isinstance(n, ast.Call) and isinstance(n.func, ast.Attribute) and n.func.attr == meth and norm(n.func.value).endswith("HEADER")]
-
-    packs = {norm(n.func.value): n for n in struct_calls(pk, "pack")}
-    unpacks = {}
-    for n in struct_calls(un, "unpack_from"):
-        unpacks[norm(n.func.value)] = n
-    want = {"DNSMessage.HEADER": "!HHHHHH", "Question.HEADER": "!HH", "ResourceRecord.HEADER": "!HHIH"}
-    mr = MayRaise(ctx, Config())
-    mod = ctx.model.module(DNS)
-    fm = {k: mr.struct_format(mod, ast.parse(k, mode="eval").body) for k in want}
-    bad = []
-    if set(packs) != set(want) or set(unpacks) != set(want):
-        bad.append(f"struct constants used: pack {sorted(packs)} unpack {sorted(unpacks)}")
-    if fm != want:
-        bad.append(f"struct formats {fm} != {want}")
-    if not bad:
-        def targets_of(call):
-            p = call._parent
-            while not isinstance(p, ast.Assign):
-                p = p._parent
-            t = p.targets[0]
-            return [norm(x) for x in (t.elts if isinstance(t, ast.Tuple) else [t])]
-
-        def strip(a):  # self.id / len(self.questions) / question.type / len(rr.data) -> id / questions / type / data
-            if isinstance(a, ast.Call) and norm(a.func) == "len":
-                a = a.args[0]
-            return a.attr if isinstance(a, ast.Attribute) else norm(a)
-
-        hp = [strip(a) for a in packs["DNSMessage.HEADER"].args]
-        hu = targets_of(unpacks["DNSMessage.HEADER"])
-        # unpacked count variable -> section it fills
-        fills = {}
-        for n in walk_in_order(un):
-            if isinstance(n, ast.For) and isinstance(n.iter, ast.Call) and norm(n.iter.func) == "range" and n._parent is un:
-                cnt = norm(n.iter.args[-1])
-                app = [norm(c.func.value) for c in walk_in_order(n) if isinstance(c, ast.Call) and isinstance(c.func, ast.Attribute) and c.func.attr == "append" and norm(c.func.value).startswith("msg.")]
-                if len(app) == 1:
-                    fills[cnt] = app[0].split(".")[1]
-            if isinstance(n, ast.Call) and norm(n.func) == "unpack_rrs" and len(n.args) == 3:
-                fills[norm(n.args[2])] = norm(n.args[0]).split(".")[1]
-        hu_sem = [fills.get(x, x) for x in hu]
-        ctx.cells += len(hp)
-        if hp != hu_sem:
-            bad.append(f"header words packed {hp} but unpacked {hu_sem}")
-        qp = [strip(a) for a in packs["Question.HEADER"].args]
-        qu = targets_of(unpacks["Question.HEADER"])
-        if qp != qu:
-            bad.append(f"question words packed {qp} but unpacked {qu}")
-        rp = [strip(a) for a in packs["ResourceRecord.HEADER"].args]
-        ru = targets_of(unpacks["ResourceRecord.HEADER"])
-        if rp[:3] != ru[:3] or rp[3] != "data" or not ru[3].startswith("len"):
-            bad.append(f"resource record words packed {rp} but unpacked {ru}")
-        # positional ResourceRecord(name, type, class_, ttl, data) vs dataclass field order
-        rr = [n for n in walk_in_order(un) if isinstance(n, ast.Call) and norm(n.func) == "ResourceRecord"]
-        fields = [st.target.id for st in ctx.model.cls(DNS, "ResourceRecord").body if isinstance(st, ast.AnnAssign) and "ClassVar" not in norm(st.annotation)]
-        if len(rr) != 1 or [norm(a) for a in rr[0].args] != fields:
-            bad.append(f"ResourceRecord(...) arguments {[norm(a) for a in rr[0].args] if rr else None} vs fields {fields}")
-        # section order
-        sec_p = []
-        for n in pk.body:
-            if isinstance(n, ast.For):
-                it = n.iter
-                for x in (it.elts if isinstance(it, ast.Tuple) else [it]):
-                    x = x.value if isinstance(x, ast.Starred) else x
-                    if isinstance(x, ast.Attribute) and norm(x.value) == "self":
-                        sec_p.append(x.attr)
-        sec_u = [fills[x] for x in hu if x in fills]
-        calls_u = [norm(n.args[0]).split(".")[1] for n in walk_in_order(un) if isinstance(n, ast.Call) and norm(n.func) == "unpack_rrs" and n._parent._parent is un]
-        if sec_p != sec_u or sec_u[1:] != calls_u:
-            bad.append(f"sections packed in order {sec_p}, counted {sec_u}, unpacked {['questions'] + calls_u}")
-    ctx.check(not bad, "R25.2", (DNS, "DNSMessage.unpack_from", un), "word order and struct formats packed vs unpack_from", "; ".join(bad),
-              desc="6 header words, 2 question words, 4 RR words, 4 sections: same order, formats !HHHHHH / !HH / !HHIH")
-    ctx.expect_instances("R25.2", 2)
 
 
 # ---------------------------------------------------------------------------------------------------
@@ -487,6 +858,9 @@ class EncoderBits:
         self.model = ctx.model
         root_mod = self.model.module(rel)
         root = ctx.func(rel, qual)
+        self.root = (rel, qual)
+        self._dyn: dict = {}
+        self._it = None
         self.funcs: dict[int, tuple] = {}
         self.calls: dict[int, list] = {}  # id(callee) -> [(module, caller fn, Call)]
         work = [(root_mod, root)]
@@ -527,7 +901,55 @@ class EncoderBits:
         r = self.model.resolve_name(m, fx)
         if r is not None and isinstance(r[1], (ast.FunctionDef, ast.AsyncFunctionDef)):
             return r
+        if isinstance(fx, ast.Attribute) and isinstance(fx.value, ast.Name):
+            # `rr._pack_into(out)` where rr iterates over self.<field> declared `list[Cls]`: the method of Cls
+            c = self.element_class(m, f, fx.value.id)
+            if c is not None:
+                r = self.model.method(c[0].rel, c[1]._qual, fx.attr)
+                if r is not None and isinstance(r[1], (ast.FunctionDef, ast.AsyncFunctionDef)):
+                    return r
         return None
+
+    def element_class(self, m, f, name):
+        """class of the loop variable ``name``: `for name in self.a` / `(*self.a, *self.b)` / `chain(self.a, self.b)` with `a: list[Cls]`"""
+        loops = [n for n in _own_nodes(f) if isinstance(n, (ast.For, ast.AsyncFor)) and isinstance(n.target, ast.Name) and n.target.id == name]
+        if len(loops) != 1:
+            return None
+        it = loops[0].iter
+        if isinstance(it, ast.Tuple):
+            srcs = [e.value if isinstance(e, ast.Starred) else None for e in it.elts]
+        elif isinstance(it, ast.Call) and norm(it.func).split(".")[-1] == "chain":
+            srcs = list(it.args)
+        else:
+            srcs = [it]
+        c = getattr(f, "_parent", None)
+        while c is not None and not isinstance(c, ast.ClassDef):
+            c = getattr(c, "_parent", None)
+        if c is None or not hasattr(c, "_qual"):
+            return None
+        found = set()
+        for src in srcs:
+            if not (isinstance(src, ast.Attribute) and isinstance(src.value, ast.Name) and src.value.id == "self"):
+                return None
+            ann = None
+            for cm, cd in self.model.mro(m.rel, c._qual):
+                for st in cd.body:
+                    if isinstance(st, ast.AnnAssign) and isinstance(st.target, ast.Name) and st.target.id == src.attr:
+                        ann = (cm, st.annotation)
+                        break
+                if ann:
+                    break
+            if ann is None or not (isinstance(ann[1], ast.Subscript) and norm(ann[1].value).split(".")[-1].lower() in ("list", "sequence", "tuple", "iterable")):
+                return None
+            elem = ann[1].slice.elts[0] if isinstance(ann[1].slice, ast.Tuple) else ann[1].slice
+            r = self.model.resolve_name(ann[0], elem)
+            if r is None or not isinstance(r[1], ast.ClassDef):
+                return None
+            found.add((r[0].rel, r[1]._qual))
+        if len(found) != 1:
+            return None
+        rel, qual = found.pop()
+        return self.model.module(rel), self.model.cls(rel, qual)
 
     def const(self, m, e, depth=0):
         if isinstance(e, ast.Constant):
@@ -669,6 +1091,8 @@ class EncoderBits:
             raise AnalysisError(f"R25.4: arithmetic in a bit-field operand is not modelled: {norm(e)}")
         if isinstance(e, ast.IfExp):
             return self._join([self.mask(m, f, e.body), self.mask(m, f, e.orelse)])
+        if isinstance(e, ast.Compare) or (isinstance(e, ast.UnaryOp) and isinstance(e.op, ast.Not)):
+            return 1  # a bool: 0 or 1
         key = id(e)
         if key in self._active:
             return _CYC
@@ -679,6 +1103,9 @@ class EncoderBits:
             if isinstance(e, ast.Attribute):
                 if self.is_bool_field(m, f, e):
                     return 1
+                hi = self.dynamic_bound(m, f, e)
+                if hi is not None:
+                    return self._of_hi(hi)
                 return _Unb(f"{norm(e)} has no range check")
             if isinstance(e, ast.Call) and isinstance(e.func, ast.Name) and e.func.id == "bool" and len(e.args) == 1:
                 return 1
@@ -691,6 +1118,45 @@ class EncoderBits:
         finally:
             self._active.pop()
         raise AnalysisError(f"R25.4: operand of a bit-field composition is not modelled: {norm(e)}")
+
+    def dynamic_bound(self, m, f, e):
+        """``self.x`` in a method of the message class, x a field: the largest value of x the *interpreted* encoder accepts when every
+        probed larger value (next values, powers of two up to 2**40) is refused - however the range check is spelled (chained
+        comparison, loop over field names with getattr, validating helper).  None: no such bound."""
+        if not (isinstance(e.value, ast.Name) and e.value.id == "self"):
+            return None
+        c = getattr(f, "_parent", None)
+        while c is not None and not isinstance(c, ast.ClassDef):
+            c = getattr(c, "_parent", None)
+        if c is None or (m.rel, getattr(c, "_qual", None)) != (self.root[0], self.root[1].rsplit(".", 1)[0]) or self.root != (DNS, "DNSMessage.packed"):
+            return None
+        if e.attr not in _BASE or isinstance(_BASE[e.attr], (bool, list)):
+            return None
+        if e.attr in self._dyn:
+            return self._dyn[e.attr]
+        self._dyn[e.attr] = None
+        if self._it is None:
+            self._it = DnsInterp(self.ctx.model, max_steps=3_000_000)
+        accepted = lambda v: packed(self._it, {**_BASE, e.attr: v})[0] == "ok"  # noqa: E731
+        if not accepted(0):
+            return None
+        k = next((k for k in range(0, 41) if not accepted(1 << k)), None)
+        if k is None:
+            return None
+        lo, hi = (1 << k) >> 1, (1 << k)  # lo accepted (or 0), hi refused
+        while hi - lo > 1:
+            mid = (lo + hi) // 2
+            if accepted(mid):
+                lo = mid
+            else:
+                hi = mid
+        probes = [lo + 1, lo + 2, 2 * lo + 1, 2 * lo + 2] + [1 << j for j in range(k, 41)] + [(1 << j) + lo for j in range(k, 41, 4)]
+        if any(accepted(v) for v in probes):
+            return None
+        self.ctx.cells += 41 + len(probes)
+        self.ctx.assume(f"R25.4: self.{e.attr} <= {lo}: the interpreted DNSMessage.packed accepts {lo} and refuses every larger value probed ({lo + 1}, {lo + 2}, powers of two up to 2**40)")
+        self._dyn[e.attr] = lo
+        return lo
 
     def is_bool_field(self, m, f, e) -> bool:
         """``self.x`` where the enclosing class (or a base) declares ``x: bool``"""
@@ -955,14 +1421,17 @@ def _r25_4(ctx):
 
 
 def check(ctx):
+    roomy(lambda: _check(ctx))
+
+
+def _check(ctx):
     ctx.rule("R25.1", "pointer loops terminate: sentinel stored before recursing, sentinel hit raises, labels consume >= 1 byte")
     ctx.rule("R25.2", "header bit layout, word order and struct formats agree between DNSMessage.packed and unpack_from")
     ctx.rule("R25.4", "bit-field compositions (`a | b`, `K + b`) in the encoder reachable from DNSMessage.packed are lossless: possible-bit masks of the operands are disjoint")
     ctx.rule("R25.3", "escape set of DNSMessage.unpack on untrusted bytes is within the types handled by DNSLayer.state_query")
-    _r25_1(ctx)
-    _r25_2(ctx)
-    _r25_3(ctx)
-    _r25_4(ctx)
+    # each rule on its own: an AnalysisError in one of them is deferred (exit 2) and a violation found by another takes precedence
+    for rule in (_r25_1, _r25_2, _r25_3, _r25_4):
+        ctx.guard(rule, ctx)
 
 
 MUTANTS = [
@@ -976,8 +1445,15 @@ MUTANTS = [
     Mutant("label-decoded-as-ascii-strict", DN, '            labels.append(buffer[offset:end_label].decode("idna"))\n        except UnicodeError:', '            labels.append(buffer[offset:end_label].decode("idna"))\n        except UnicodeTranslateError:', "R25.3"),
     # R25.1
     Mutant("sentinel-store-removed", DN, "        cache[offset] = None  # this will indicate that the offset is being unpacked\n", "", "R25.1"),
-    Mutant("sentinel-stored-after-advancing", DN, "        cache[offset] = None  # this will indicate that the offset is being unpacked\n        start_offset = offset\n        labels = []\n        while True:\n            (size,) = _LABEL_SIZE.unpack_from(buffer, offset)\n",
-           "        start_offset = offset\n        labels = []\n        while True:\n            (size,) = _LABEL_SIZE.unpack_from(buffer, offset)\n            cache[start_offset] = None\n", "R25.1"),
+    # (storing the marker later but still under the start offset and before recursing - `cache[start_offset] = None` inside the loop - is
+    #  behaviour-preserving and must stay quiet; what breaks the guard is marking the offset the scan has advanced to)
+    Mutant("sentinel-stored-under-the-advanced-offset", DN,
+           "        cache[offset] = None  # this will indicate that the offset is being unpacked\n        start_offset = offset\n        labels = []\n        while True:\n            (size,) = _LABEL_SIZE.unpack_from(buffer, offset)\n            if size & _POINTER_INDICATOR == _POINTER_INDICATOR:\n                (pointer,) = _POINTER_OFFSET.unpack_from(buffer, offset)\n                offset += _POINTER_OFFSET.size\n",
+           "        start_offset = offset\n        labels = []\n        while True:\n            (size,) = _LABEL_SIZE.unpack_from(buffer, offset)\n            if size & _POINTER_INDICATOR == _POINTER_INDICATOR:\n                (pointer,) = _POINTER_OFFSET.unpack_from(buffer, offset)\n                offset += _POINTER_OFFSET.size\n                cache[offset] = None\n", "R25.1"),
+    Mutant("sentinel-only-on-the-label-path", DN, "        cache[offset] = None  # this will indicate that the offset is being unpacked\n        start_offset = offset\n        labels = []\n        while True:\n            (size,) = _LABEL_SIZE.unpack_from(buffer, offset)\n            if size & _POINTER_INDICATOR == _POINTER_INDICATOR:\n",
+           "        start_offset = offset\n        labels = []\n        while True:\n            (size,) = _LABEL_SIZE.unpack_from(buffer, offset)\n            if size & _POINTER_INDICATOR != _POINTER_INDICATOR:\n                cache[start_offset] = None\n            if size & _POINTER_INDICATOR == _POINTER_INDICATOR:\n", "R25.1"),
+    Mutant("loop-detected-but-name-returned", DN, "        if result is None:\n            raise struct.error(f\"unpack encountered domain name loop\")\n", "        if result is None:\n            return \"\", _POINTER_OFFSET.size\n", "R25.1"),
+    Mutant("pointer-consumes-one-octet", DN, "                offset += _POINTER_OFFSET.size\n                if depth >= _MAX_POINTER_DEPTH:", "                offset += _LABEL_SIZE.size\n                if depth >= _MAX_POINTER_DEPTH:", "R25.1"),
     Mutant("sentinel-hit-does-not-raise", DN, "        if result is None:\n            raise struct.error(f\"unpack encountered domain name loop\")\n", "        if result is None:\n            result = (\"\", 0)\n", "R25.1"),
     Mutant("empty-label-consumes-nothing", DN, "    elif size == 0:\n        return _LABEL_SIZE.size\n", "    elif size == 0:\n        return 0\n", "R25.1"),
     # R25.4 (the first one is the essence of seed C25b, written inside dns.py: pointer offset taken from len(data) without a 14-bit bound)
